@@ -27,8 +27,8 @@ import (
 	"github.com/ElrondNetwork/elrond-go/marshal"
 	"github.com/ElrondNetwork/elrond-go/process/smartContract"
 	"github.com/ElrondNetwork/elrond-go/storage"
-	hftrigger "github.com/ElrondNetwork/elrond-go/update/trigger"
 	updmock "github.com/ElrondNetwork/elrond-go/update/mock"
+	hftrigger "github.com/ElrondNetwork/elrond-go/update/trigger"
 	"verif/internal/vk"
 )
 
